@@ -7,6 +7,7 @@
 -/
 import PygModel.PerDict
 import PygProofs.Lemmas.PerDictLemmas
+import PygProofs.Lemmas.PerDictJoin
 import PygProofs.Props.C02
 
 namespace Pyg.Props.C20
@@ -285,6 +286,165 @@ theorem mul_is_join (a b d : Table) (h : a.mul b = some (.ok d)) :
       | some d' => simp [hv'] at h; rw [h]
   · simp at h
   · simp at h
+
+/-! ## which keys survive, which values they carry: any number of inputs, any subset with defaults -/
+
+/-- **what `_item` keeps of a table input** keyed by all of `on` whose parameter name is not a key
+column: a rectangular table with exactly the key columns and the column `key`; it has the rows of
+the input — same keys, and under `key` the input's value column (`valueCol`: the column named like
+the parameter, else `data`, else the only non-key column). -/
+theorem item_spec (d t : Table) (key : String) (on : List String) (hd : d.WF)
+    (hon : ∀ c ∈ on, c ∈ d.cols) (hkey : key ∉ on) (h : item d key on = .ok t) :
+    KeyedSrc on t key ∧ RowsAgree on key t.R (inputRows on key d) :=
+  item_rows d t key on hd hon hkey h
+
+/-- the per-input stage of `join` succeeded -/
+theorem pdJoin_stage {inputs : List (String × PInput)} {on : List String}
+    {defaults : List (String × Cell)} {ds : Table} (h : pdJoin inputs on defaults = some (.ok ds)) :
+    ∃ seq, inputs.mapM (fun kv => match kv.2 with
+      | .table d => (item d kv.1 on).map fun d' => (kv.1, PInput.table d')
+      | .scalar c => (Except.ok (kv.1, PInput.scalar c) : Res (String × PInput))) = .ok seq := by
+  simp only [pdJoin] at h
+  split at h
+  · cases h
+  · rename_i seq he
+    exact ⟨seq, he⟩
+
+/-- **join_keys — the n-ary `join` with defaults, for ANY number of inputs.**
+Inputs: a dict of scalars and tables (distinct names, none of them a key column), at least one
+table, every table rectangular and keyed by all of `on`; any `defaults`.  Whenever
+`join(inputs, on, defaults)` returns a table `ds`:
+* `ds` is rectangular; its columns are the key columns and one column per input;
+* **keys**: a key is present in `ds` iff it is present in every table input that has no default —
+  and, when ALL table inputs have a default, iff it is present in at least one of them (union);
+* **values** (`VOK`): in every row, the column of a table input holds that input's value at a row
+  with this key, or — when the input has no such row — its default, which then exists;
+* **scalars broadcast**: every row holds each scalar input under its name;
+* **one row per key**: if no table input repeats a key, neither does `ds`;
+* **sorted**: the rows are in non-decreasing order of `dictable.sort`'s key (the dict of the key cells). -/
+theorem join_keys (inputs : List (String × PInput)) (on : List String)
+    (defaults : List (String × Cell)) (ds : Table)
+    (hon : on ≠ []) (hnames : (inputs.map (·.1)).Nodup) (hoff : ∀ kv ∈ inputs, kv.1 ∉ on)
+    (htab : ∀ kv ∈ tableInputs inputs, kv.2.WF ∧ ∀ c ∈ on, c ∈ kv.2.cols)
+    (hany : tableInputs inputs ≠ [])
+    (h : pdJoin inputs on defaults = some (.ok ds)) :
+    ds.WF ∧
+    (∀ c, c ∈ ds.cols ↔ c ∈ on ∨ (∃ kv ∈ tableInputs inputs, kv.1 = c) ∨
+      ∃ kv ∈ scalarInputs inputs, kv.1 = c) ∧
+    (∀ k, ds.R.hasK on k ↔
+      (∀ kv ∈ tableInputs inputs, dfltOf defaults kv.1 = none → kv.2.R.hasK on k) ∧
+      ((∀ kv ∈ tableInputs inputs, (dfltOf defaults kv.1).isSome = true) →
+        ∃ kv ∈ tableInputs inputs, kv.2.R.hasK on k)) ∧
+    VOK on ds.R ((tableInputs inputs).map (inputSrc on defaults)) ∧
+    (∀ q, q < ds.nrows → ∀ kv ∈ scalarInputs inputs, ds.jcellAt kv.1 q = kv.2) ∧
+    ((∀ kv ∈ tableInputs inputs, kv.2.R.uniq on) → ds.R.uniq on) ∧
+    ((List.range ds.nrows).map (sortKey ds on)).Pairwise (fun a b => cmpLe a b = true) := by
+  obtain ⟨seq, hseq⟩ := pdJoin_stage h
+  obtain ⟨i1, i2, i3⟩ := mapM_item_sem on inputs seq hseq
+  rw [pdJoin_unfold inputs seq on defaults hseq, i1, i2] at h
+  -- names
+  have hTn : ∀ a ∈ tableInputs inputs, a.1 ∈ inputs.map (·.1) := fun a ha =>
+    List.mem_map.2 ⟨_, mem_tableInputs.1 ha, rfl⟩
+  have hToff : ∀ a ∈ tableInputs inputs, a.1 ∉ on := fun a ha =>
+    hoff _ (mem_tableInputs.1 ha)
+  have hSoff : OffKeys on (scalarInputs inputs) := fun b hb => hoff _ (mem_scalarInputs.1 hb)
+  have hdf : ∀ a ∈ tableInputs inputs,
+      dfltOf (defaults.filter fun kv => (inputs.map (·.1)).contains kv.1) a.1 = dfltOf defaults a.1 :=
+    fun a ha => dfltOf_filter_names defaults _ a.1 (hTn a ha)
+  -- the tables after `_item`
+  have hit : ∀ a ∈ tableInputs inputs, KeyedSrc on (itemD a.2 a.1 on) a.1 ∧
+      RowsAgree on a.1 (itemD a.2 a.1 on).R (inputRows on a.1 a.2) := fun a ha =>
+    item_rows a.2 _ a.1 on (htab a ha).1 (htab a ha).2 (hToff a ha) (i3 a ha)
+  generalize hts : (tableInputs inputs).map (fun a => (a.1, itemD a.2 a.1 on)) = ts at h
+  have hmem : ∀ b ∈ ts, ∃ a ∈ tableInputs inputs, b = (a.1, itemD a.2 a.1 on) := by
+    intro b hb
+    rw [← hts] at hb
+    obtain ⟨a, ha, rfl⟩ := List.mem_map.1 hb
+    exact ⟨a, ha, rfl⟩
+  have hmem' : ∀ a ∈ tableInputs inputs, (a.1, itemD a.2 a.1 on) ∈ ts := by
+    intro a ha
+    rw [← hts]
+    exact List.mem_map.2 ⟨a, ha, rfl⟩
+  have hne : ts.isEmpty = false := by
+    rw [← hts]
+    cases hT : tableInputs inputs with
+    | nil => exact absurd hT hany
+    | cons a as => rfl
+  simp only [hne, Bool.false_eq_true, if_false] at h
+  split at h
+  · rename_i d hj
+    simp only [Option.some.injEq] at h
+    have hks : ∀ b ∈ ts, KeyedSrc on b.2 b.1 := by
+      intro b hb
+      obtain ⟨a, ha, rfl⟩ := hmem b hb
+      exact (hit a ha).1
+    have hnd : (ts.map (·.1)).Nodup := by
+      rw [← hts, List.map_map]
+      exact hnames.sublist (tableInputs_names inputs)
+    obtain ⟨dw, dc, dv, du, dk⟩ := joinTables_sem on hon ts _ d hks hnd hj
+    obtain ⟨sw, sc, sr, ssort⟩ := finish_sem on d ds (scalarInputs inputs) dw h
+    refine ⟨sw, ?_, ?_, ?_, ?_, ?_, ssort⟩
+    · intro c
+      rw [sc c, dc c]
+      constructor
+      · rintro ((h1 | ⟨b, hb, he⟩) | h1)
+        · exact .inl h1
+        · obtain ⟨a, ha, rfl⟩ := hmem b hb
+          exact .inr (.inl ⟨a, ha, he⟩)
+        · exact .inr (.inr h1)
+      · rintro (h1 | ⟨a, ha, he⟩ | h1)
+        · exact .inl (.inl h1)
+        · exact .inl (.inr ⟨_, hmem' a ha, he⟩)
+        · exact .inr h1
+    · intro k
+      rw [sr.hasK hSoff k, dk k]
+      have hK : ∀ a ∈ tableInputs inputs, (itemD a.2 a.1 on).R.hasK on k ↔ a.2.R.hasK on k :=
+        fun a ha => ((hit a ha).2.hasK k).trans (inputRows_hasK on a.1 a.2 (hToff a ha) k)
+      constructor
+      · rintro ⟨h1, h2⟩
+        refine ⟨fun a ha hd => (hK a ha).1 (h1 _ (hmem' a ha) ((hdf a ha).trans hd)), ?_⟩
+        intro hall
+        obtain ⟨b, hb, hbk⟩ := h2 (by
+          intro b hb
+          obtain ⟨a, ha, rfl⟩ := hmem b hb
+          rw [hdf a ha]; exact hall a ha)
+        obtain ⟨a, ha, rfl⟩ := hmem b hb
+        exact ⟨a, ha, (hK a ha).1 hbk⟩
+      · rintro ⟨h1, h2⟩
+        refine ⟨?_, ?_⟩
+        · intro b hb hd
+          obtain ⟨a, ha, rfl⟩ := hmem b hb
+          exact (hK a ha).2 (h1 a ha ((hdf a ha).symm.trans hd))
+        · intro hall
+          obtain ⟨a, ha, hak⟩ := h2 (by
+            intro a ha
+            rw [← hdf a ha]; exact hall (a.1, itemD a.2 a.1 on) (hmem' a ha))
+          exact ⟨_, hmem' a ha, (hK a ha).2 hak⟩
+    · have hv := sr.vok hSoff (S := ts.map (mkSrc _)) (by
+        intro s hs b hb
+        obtain ⟨b', hb', rfl⟩ := mem_map_mkSrc hs
+        obtain ⟨a, ha, rfl⟩ := hmem b' hb'
+        exact table_scalar_names hnames ha hb) dv
+      intro q hq s hs
+      obtain ⟨a, ha, rfl⟩ := List.mem_map.1 hs
+      have := hv q hq (mkSrc _ (a.1, itemD a.2 a.1 on))
+        (List.mem_map.2 ⟨_, hmem' a ha, rfl⟩)
+      have := (hit a ha).2.vrow this
+      simp only [hdf a ha] at this
+      exact this
+    · intro q hq b hb
+      have hn : ((scalarInputs inputs).map (·.1)).Nodup :=
+        hnames.sublist (scalarInputs_names inputs)
+      exact sr.consts q hq b.1 b.2 (dfltOf_of_nodup hn hb)
+    · intro hu
+      apply sr.uniq hSoff
+      apply du
+      intro b hb
+      obtain ⟨a, ha, rfl⟩ := hmem b hb
+      exact (hit a ha).2.uniq (inputRows_uniq on a.1 a.2 (hToff a ha) (hu a ha))
+  · cases h
+  · cases h
+  · cases h
 
 /-! ## non-vacuity and evaluation tests -/
 
